@@ -178,7 +178,10 @@ CHECKS = {
                 "executions and responses never exceed one, an error outcome means nothing ran, a post to an existing "
                 "method is never answered, frames that are neither call nor post run nothing, no state is stuck; the two "
                 "repaired defects are kept as refutation theorems of the old choices; tied by regenerated client / "
-                "dispatch / stub / generator / channel facts and by exact server-side, exact client-side and concurrent runs",
+                "dispatch / stub / generator / channel facts and by exact server-side, exact client-side and concurrent runs; "
+                "calls the server forwards to an object hosted by a client (a goroutine per call that calls the host and answers "
+                "later, in any order) are modelled as two call machines and their link (Model/Forward.lean) and shown to satisfy "
+                "the same invariant (Props/C04Forward.forwarded_call_is_a_call, forwarded_own_answer)",
         "note": "exactly-once delivery of frames is C01/C10's statement and an assumption here; a post to a missing target is "
                 "answered with an error frame (known finding)",
         "technique": "Lean 4 proof (per-call stage invariant by induction over action sequences, refutation witnesses) + regenerated tie lemmas + exact and concurrent correspondence runs",
@@ -248,9 +251,11 @@ CHECKS = {
                 "their uids (interface_roundtrip); the repeated keywords are unreachable; the hypotheses are witnessed; tied by the regenerated keyword list, "
                 "alternative order, composite shapes, identifier patterns and printer formats, and by differential runs "
                 "of types, whole meta-objects and fuzzed text through the real parser",
-        "note": "partial: the end-to-end theorem (generateIDL_roundtrip, idl_roundtrip_of_signatures) holds for meta-objects without "
-                "name clashes; with clashes structs are renamed (known finding) and the text is compared with the model by the "
-                "differential run only; totality of the IDL parser on arbitrary text is sampled (child processes), not proved",
+        "note": "partial: the end-to-end theorem with names (generateIDL_roundtrip, idl_roundtrip_of_signatures) holds for meta-objects "
+                "without name clashes; with clashes structs are renamed (known finding) and what is proved is that the layouts "
+                "survive (Props/C18Clash.generateIDL_layout: kinds, action names and ids, parameter names, member names and types — "
+                "short of a hundred numbered attempts for one name); totality of the IDL parser on arbitrary text is sampled "
+                "(child processes), not proved",
         "technique": "Lean 4 proof (print/parse round trip of the IDL type grammar by mutual induction) + regenerated tie lemmas + differential and round-trip runs, fuzzing in child processes",
     },
 }
